@@ -49,7 +49,9 @@ type scenario struct {
 	Entry  vkit.Entry
 	// how the error answer is rendered: verbose error bodies are negotiated with the client's Accept header
 	Verbose bool
-	Accept  string
+	// AcceptedCode: the status the decision service is configured to answer with when it allows a request (0 = not configured)
+	AcceptedCode int
+	Accept       string
 	// the level heimdall logs on ("" = logging disabled): a setting of the operator which must not matter
 	LogLevel string
 }
@@ -57,7 +59,7 @@ type scenario struct {
 func (s scenario) String() string {
 	var sb strings.Builder
 
-	fmt.Fprintf(&sb, "%s via %s (verbose=%v accept=%q log=%q): ", s.Source, s.Entry, s.Verbose, s.Accept, s.LogLevel)
+	fmt.Fprintf(&sb, "%s via %s (verbose=%v accept=%q log=%q accepted_code=%d): ", s.Source, s.Entry, s.Verbose, s.Accept, s.LogLevel, s.AcceptedCode)
 
 	for _, st := range s.Steps {
 		fmt.Fprintf(&sb, "[%s %s%s", st.Kind[:5], st.Real, st.Outcome)
@@ -108,6 +110,7 @@ func genScenario(t *rapid.T) scenario {
 	}
 
 	s.Verbose = rapid.Bool().Draw(t, "verboseErrors")
+	s.AcceptedCode = rapid.SampledFrom([]int{0, 0, 202, 204}).Draw(t, "acceptedCode")
 	s.LogLevel = rapid.SampledFrom([]string{"", "", "trace", "debug", "info", "error"}).Draw(t, "logLevel")
 	s.Accept = rapid.SampledFrom([]string{"", "", "*/*", "application/json", "text/html;q=0.5, application/xml", "image/png", "application/pdf;q=0.9, image/*", "application/",
 		"garbage"}).Draw(t, "accept")
@@ -201,6 +204,7 @@ func build(s scenario) (*vkit.World, error) {
 	conf := vkit.DefaultConf()
 	conf.Serve.Decision.Respond.Verbose = s.Verbose
 	conf.Serve.Proxy.Respond.Verbose = s.Verbose
+	conf.Serve.Decision.Respond.With.Accepted.Code = s.AcceptedCode
 	protos := conf.Prototypes
 
 	var (
@@ -497,6 +501,7 @@ func TestPositiveAnswerOnlyAfterCompletePipeline(t *testing.T) {
 		vkit.S.Label("entry=" + string(s.Entry))
 		vkit.S.Label("source=" + s.Source)
 		vkit.S.LabelIf(s.Verbose && s.Accept != "", "verbose_errors_with_accept_header")
+		vkit.S.LabelIf(s.AcceptedCode != 0 && s.Entry == vkit.EntryDecision, "decision_service_with_configured_accepted_status")
 		vkit.S.Label("log_level=" + s.LogLevel)
 		vkit.S.Label(fmt.Sprintf("model_allows=%v", nec))
 		vkit.S.LabelIf(nec && certain && resp.Positive, "converse:model_allows_and_allowed")
